@@ -159,4 +159,14 @@ CyclesEffectOK(N, A, B, ca, cb) ==
     [] OTHER -> FALSE
 P_C13_cycles == (IsOp /\ E.ok) =>
    CyclesEffectOK(NetE, Abs(PreS), Abs(E.S), Cyc(NetE, PreS), Cyc(NetE, E.S))
+(* ---------------- specification -> implementation: replayed model histories ---------------- *)
+\* MC_Schedule emits every explored state with a history of fully determined calls; after replaying the
+\* history on the real Schedule the observed abstract state must be exactly the model state
+IsReplayed == E.ev = "replayed"
+P_C13_replay_ok == IsReplayed => (E.ok /\ ~E.panic)
+P_C13_replay_state == (IsReplayed /\ E.ok) =>
+   LET B == Abs(E.S)
+   IN /\ B.tours = E.exp.A.tours /\ B.vtype = E.exp.A.vtype /\ B.dum = E.exp.A.dum /\ B.form = E.exp.A.form
+      /\ \A ty \in NetE.types : Cyc(NetE, E.S)[ty] = Range1(E.exp.cyc)
+P_C13_replay_inv == (IsReplayed /\ E.ok) => (SchedInv(NetE, E.S) /\ CachesOK(NetE, E.S))
 =============================================================================
